@@ -127,6 +127,10 @@ func (e *envelopeEncryption) intermediateKeyFromEKR(sk accessorRevokable, ekr *E
 		return e.Crypto.Decrypt(ekr.EncryptedKey, skBytes)
 	})
 	if err != nil {
+		// the access can report an error after the key was decrypted (the system key's pages could
+		// not be made inaccessible again): don't leave the plaintext behind
+		internal.MemClr(ikBuffer)
+
 		return nil, err
 	}
 
